@@ -1222,7 +1222,10 @@ void tNMEA2000::SetMode(tN2kMode _N2kMode, uint8_t _N2kSource) {
   InitDevices();
   N2kMode=_N2kMode;
   for (int i=0; i<DeviceCount; i++) {
-    Devices[i].N2kSource=_N2kSource+i;
+    // Devices of a multi device node get successive addresses. They must stay within valid addresses 0-251.
+    int Source=_N2kSource+i;
+    if ( _N2kSource<=N2kMaxCanBusAddress && Source>N2kMaxCanBusAddress ) Source-=N2kMaxCanBusAddress+1;
+    Devices[i].N2kSource=Source;
     Devices[i].UpdateAddressClaimEndSource();
   }
   AddressChanged=false;
